@@ -162,7 +162,7 @@ def generate(tier, seed):
     nrand = 1500 if tier == "quick" else 10000
     for i in range(nrand):
         m = rng.choice([4, 5, 5, 6, 6, 7])
-        if tier != "quick" and i < 120:
+        if tier != "quick" and i % 83 == 41:
             m = 8                      # ~1 s and 200 MB per reference call: a few, thorough only
         kind = rng.randrange(5)
         if kind == 0:      # uniformly random orders (mostly negative beyond 3 votes)
@@ -191,6 +191,8 @@ def generate(tier, seed):
         m = rng.randint(7, 30)
         n = rng.randint(2, 20)
         out.append(_planted(rng, m, n, rng.randint(1, 2), op="c13.witness", big=1))
+    # the oracle side is split into contiguous chunks: spread the expensive reference calls (m >= 7) evenly
+    random.Random(seed + 7).shuffle(out)
     return out
 
 
